@@ -191,8 +191,9 @@ func (s *JS) Dialect(comps *[]dialect.Prop) *dialect.Schema {
 // schema generation
 
 type jgen struct {
-	rng  *rand.Rand
-	next int
+	noNullAny bool
+	rng       *rand.Rand
+	next      int
 }
 
 func (g *jgen) prim() *JS {
@@ -401,6 +402,10 @@ func (g *jgen) genValue(s *JS, o *oracle) string {
 		return "T(" + repr + ")"
 	case "any":
 		raw := []string{`1`, `"s"`, `null`, `{"k":[1,2]}`, `[true]`, `1.5e3`}[g.rng.Intn(6)]
+		if g.noNullAny && raw == `null` {
+			// (OpenAPI 3.0: a schema without nullable:true does not admit null; C09 sends only valid documents)
+			raw = `0`
+		}
 		return "Raw(" + dialect.Hx(raw) + ")"
 	case "null":
 		if g.rng.Intn(3) == 0 {
